@@ -22,10 +22,10 @@ from . import common, family as F
 from .common import cN, cstr, cbool, clist, copt
 
 THEOREMS = [
-    "decode_value", "reply_decodes", "decode_presentation_independent", "promote_preserves_infoset_partial",
-    "chars_chunking", "builtin_tags_match_statement",
+    "decode_value", "reply_decodes", "outputs_decode", "decode_presentation_independent",
+    "promote_preserves_infoset_partial", "chars_chunking", "builtin_tags_match_statement",
     "promote_capture_refuted", "nil_first_refuted", "whitespace_childless_refuted", "unprefixed_qname_refuted",
-    "empty_complex_refuted", "empty_leaf_refuted",
+    "empty_complex_refuted", "empty_leaf_refuted", "simple_content_untyped_refuted",
 ]
 
 PRE = "From SV Require Import Lib.Base Fam.Schema Gen.C02Tables C02.Model C02.Spec C02.Guard."
@@ -97,6 +97,75 @@ SPICY = ["first line\nsecond line", "a& &b", "left right", "x &\t& y", "one\n\nt
          "cr\rhere", "&amp;", "<![CDATA[x]]>", "é中\U0001F600", "<!-- no comment -->", "a]]b", "&#65;"]
 
 
+def lexical_variant(rng, kind, text):
+    """Another XSD lexical form of the same value, among those the unchanged
+    code reads correctly: "1"/"0" for booleans, an explicit "+" and leading
+    zeros for integers, leading / trailing zeros and "+" for decimals."""
+    if kind == "boolean":
+        return {"true": "1", "false": "0"}[text] if rng.random() < 0.5 else text
+    neg = text.startswith("-")
+    body = text[1:] if neg else text
+    r = rng.randrange(4)
+    if kind in ("int", "long"):
+        if r == 0:
+            return ("-" if neg else "+") + body
+        if r == 1:
+            return ("-" if neg else "") + "0" * rng.randrange(1, 3) + body
+        return ("-" if neg else rng.choice(["", "+"])) + "0" + body
+    if kind == "decimal":
+        if r == 0:
+            return ("-" if neg else "+") + body
+        if r == 1:
+            return ("-" if neg else "") + "0" * rng.randrange(1, 3) + body
+        if "." in body:
+            return ("-" if neg else "") + body + "0" * rng.randrange(1, 3)
+        return ("-" if neg else "") + body + "." + "0" * rng.randrange(0, 3)
+    return text
+
+
+# the built-ins a generated simple-content type may extend.  Only those that decode to str: the
+# unchanged code returns the text of ANY element of complex type untranslated (see
+# simple_content_untyped_refuted in coq/C02/Props.v and the report: C02:simple-content-value-untyped)
+SIMPLE_BASES = ["string"]
+
+
+class SimpleType(F.CType):
+    """<complexType><simpleContent><extension base=...> attributes: base is a
+    built-in name or (ns, name) of another SimpleType"""
+
+    def __init__(self, name, ns, builtin, base, attrs):
+        F.CType.__init__(self, name, ns, base, [], attrs)
+        self.builtin = builtin          # the built-in ultimately extended
+
+
+def add_simple_types(rng, S):
+    """Adds 0-2 simple-content types to a generated schema and members of
+    these types to sequences of existing types."""
+    if rng.random() < 0.45:
+        return []
+    out = []
+    b = rng.choice(SIMPLE_BASES)
+    p0 = SimpleType("P0", rng.randrange(len(S.namespaces)), b, None,
+                    [F.Attr("sa%d" % i, rng.choice(["string", "int", "boolean"]), required=False)
+                     for i in range(rng.choice([1, 1, 2]))])
+    out.append(p0)
+    if rng.random() < 0.5:
+        out.append(SimpleType("P1", rng.randrange(len(S.namespaces)), b, (p0.ns, "P0"),
+                              [F.Attr("sb0", rng.choice(["string", "boolean"]), required=False)]))
+    hosts = [t for t in S.types if t.content and t.content[0].kind in ("sequence", "all")]
+    k = 0
+    for t in rng.sample(hosts, min(len(hosts), rng.choice([1, 2]))):
+        k += 1
+        tgt = rng.choice(out[:1] if len(out) == 1 else [p0, p0, out[1]])
+        allk = t.content[0].kind == "all"
+        qualified = S.namespaces[t.ns][1]
+        t.content[0].kids.append(F.Elem("s%d" % k, t.ns, qualified, ("n", tgt.ns, tgt.name),
+                                        opt=True, multi=(not allk) and rng.random() < 0.35,
+                                        nillable=rng.random() < 0.3))
+    S.types.extend(out)
+    return out
+
+
 class Plan(object):
     """abstract value -> (document plan, expected Python data), by the rules
     in the property statement."""
@@ -116,6 +185,11 @@ class Plan(object):
         rng = self.rng
         if kind == "decimal":
             text = dec_canon(py)
+        canon = text
+        if kind in ("boolean", "int", "long", "decimal") and rng.random() < 0.3:
+            text = lexical_variant(rng, kind, text)
+            if text != canon:
+                self.features.add("lexical-variant-" + kind)
         if kind == "string":
             r = rng.random()
             if r < 0.25:
@@ -129,7 +203,9 @@ class Plan(object):
             attrs.append((F.XSI, "type", ("q", F.XSD, kind)))
             self.features.add("xsi:type-on-builtin")
         tag = KIND_TAG[kind]
-        return XE(ns, e_name, attrs, text=text), "(PLeaf %s %s)" % (cN(tag), cstr(text))
+        if kind == "string":
+            canon = text
+        return XE(ns, e_name, attrs, text=text), "(PLeaf %s %s)" % (cN(tag), cstr(canon))
 
     def single(self, e, v):
         """one occurrence of element e holding v (not None-as-absent)"""
@@ -160,9 +236,24 @@ class Plan(object):
         for a in S.all_attrs(real):
             if "_" + a.name in fields:
                 lv = fields["_" + a.name]
-                attrs.append((None, a.name, lv[2]))
+                atext = lv[2]
+                if a.builtin in ("boolean", "int") and rng.random() < 0.3:
+                    atext = lexical_variant(rng, a.builtin, atext)
+                attrs.append((None, a.name, atext))
                 exp.append(("_" + a.name, "(PLeaf %s %s)" % (cN(KIND_TAG[a.builtin]), cstr(lv[2]))))
                 self.features.add("attribute")
+        if isinstance(real, SimpleType):
+            # simple content: the plain typed value, or a property object with `value` + `_attr`
+            py, text = F.gen_leaf(rng, real.builtin)
+            if real.builtin == "string" and rng.random() < 0.3:
+                text = rng.choice([t for t in SPICY if t.strip() == t])
+            x = XE(ns, name, attrs, text=text)
+            val = "(PLeaf %s %s)" % (cN(KIND_TAG[real.builtin]), cstr(text))
+            self.features.add("simple-content" + ("-with-attributes" if exp else "-plain"))
+            if not exp:
+                return x, val
+            return x, "(PProp %s %s)" % (cstr(name), clist(["(%s, %s)" % (cstr(k), t)
+                                                               for k, t in [("value", val)] + exp], "str * pyval"))
         kids = []
         for c in S.chain(real):
             for p in c.content:
@@ -213,6 +304,18 @@ class Plan(object):
             return [], ABSENT
         x, t = self.single(e, v)
         return [x], t
+
+    def parts(self, elems, values):
+        """the nodes of the output parts + the expected return value (one part:
+        its value; several: the composite object)"""
+        nodes, exp = [], []
+        for e, v in zip(elems, values):
+            x, t = self.single(e, v)
+            nodes.append(x)
+            exp.append((e.name, t))
+        if len(elems) == 1:
+            return nodes, exp[0][1]
+        return nodes, "(PObj None %s)" % clist(["(%s, %s)" % (cstr(k), x) for k, x in exp], "str * pyval")
 
     def reply(self, wrapper_name, t, value):
         """the wrapper element + the expected return value"""
@@ -516,7 +619,11 @@ class Writer(object):
             return head + "></" + qname + ">"
         return head + ">" + self.text(x.text) + "</" + qname + self.tagspace() + ">"
 
-    def envelope(self, wrapper, namespaces):
+    def envelope(self, body_kids, namespaces):
+        """body_kids: the element (or list of elements) inside the Body"""
+        if not isinstance(body_kids, list):
+            body_kids = [body_kids]
+        wrapper = body_kids
         rng = self.rng
         envns = rng.choice([ENV11, ENV11, ENV12])
         self.features.add("soap-1.2" if envns == ENV12 else "soap-1.1")
@@ -532,7 +639,7 @@ class Writer(object):
                     pre[p2] = uri
                     self.features.add("two-prefixes-one-namespace")
         self.outer = dict((p, u) for p, u in pre.items() if u in namespaces)
-        body = XE(envns, "Body", kids=[wrapper])
+        body = XE(envns, "Body", kids=wrapper)
         kids = [body]
         if rng.random() < 0.25:
             kids.insert(0, XE(envns, "Header", kids=[]))
@@ -564,7 +671,8 @@ class Writer(object):
                                    "<%s>\n</%s>" % (qn("Header"), qn("Header"))]) + self.gap(1)
             else:
                 out += "<" + qn("Body") + ">" + self.gap(2)
-                out += self.element(k.kids[0], scope, 2) + self.gap(2)
+                for bk in k.kids:
+                    out += self.element(bk, scope, 2) + self.gap(2)
                 out += "</" + qn("Body") + ">" + self.gap(1)
         return out + "</" + qn("Envelope") + ">"
 
@@ -688,10 +796,10 @@ def canon(T, v, uri_ids, I, depth=0):
     return "(PLeaf %s %s)" % (cN(tag), cstr(text))
 
 
-def run_impl(client, opname, data):
+def run_impl(client, opname, data, port="port_document"):
     import suds
     try:
-        r = getattr(client.service["port_document"], opname)(__inject={"reply": data})
+        r = getattr(client.service[port], opname)(__inject={"reply": data})
         return "ok", r
     except suds.TypeNotFound as e:
         return "DTypeNotFound", repr(e)
@@ -723,26 +831,124 @@ def case_tables(S, I, T):
     return names, uris, kinds
 
 
-def build_case(S, I, P, T, k, t, raw, info, expected, impl, tables):
+def build_case(S, I, P, T, style, wq, raw, info, expected, impl, tables, ops=(), extra_kinds=()):
+    """style: ('wrapped', ctype) | ('bare', [Elem]) | ('rpc', [Elem]); wq = (nsid, name) of the
+    response wrapper element; ops = the wrapped operations (their wrapper elements are global elements)"""
     names, uris, kinds = tables
     globals_ = []
-    for j, tj in enumerate(S.types):
-        globals_.append("((%s, %s), (%s, %s))" % (cN(1), cN(I("op%d" % j)), cN(tj.ns + 1), cN(I(tj.name))))
-        globals_.append("((%s, %s), (%s, %s))" % (cN(1), cN(I("op%dResponse" % j)), cN(tj.ns + 1), cN(I(tj.name))))
+    for opname, tj in ops:
+        globals_.append("((%s, %s), (%s, %s))" % (cN(1), cN(I(opname + "Response")), cN(tj.ns + 1), cN(I(tj.name))))
+    simple = ["((%s, %s), %s)" % (cN(t.ns + 1), cN(I(t.name)), cN(T.BUILTIN_INDEX[t.builtin]))
+              for t in S.types if isinstance(t, SimpleType)]
+    if style[0] == "wrapped":
+        st = "(CWrapped (%s, %s))" % (cN(style[1].ns + 1), cN(I(style[1].name)))
+    else:
+        st = "(%s %s)" % ("CBare" if style[0] == "bare" else "CRpc", clist([P.elem(e) for e in style[1]], "edecl"))
+    kinds = list(kinds) + list(extra_kinds)
     # names must be printed after everything was interned
-    return ("(mkCase %s %s %s %s %s (%s, %s) (%s, %s) %s %s %s %s)" % (
+    return ("(mkCase %s %s %s %s %s %s (%s, %s) %s %s %s %s %s)" % (
         P.schema(),
         "NAMES",
         clist(["(%s, %s)" % (cstr(u), cN(i)) for u, i in uris], "str * N"),
         clist(["(%s, %s)" % (cN(a), cN(b)) for a, b in kinds], "N * N"),
         clist(globals_, "qn * qn"),
-        cN(1), cN(I("op%dResponse" % k)), cN(t.ns + 1), cN(I(t.name)),
+        clist(simple, "qn * N"),
+        cN(wq[0]), cN(wq[1]), st,
         raw, info, expected, impl))
 
 
 def names_literal(I):
     return clist(["(%s, %s)" % (cstr(n), cN(i + 1)) for i, n in enumerate(I.names) if not n.startswith("text:")],
                  "str * N")
+
+
+class FamRenderer(F.Renderer):
+    """family.Renderer + simple-content types"""
+
+    def ctype(self, t, indent="      "):
+        if not isinstance(t, SimpleType):
+            return F.Renderer.ctype(self, t, indent)
+        base = "xsd:" + t.builtin if t.base is None else "%s:%s" % (self.prefixes[t.base[0]], t.base[1])
+        inner = "\n".join(self.attr(a, indent + "      ") for a in t.attrs)
+        return ('%s<xsd:complexType name="%s">\n%s  <xsd:simpleContent>\n%s    <xsd:extension base="%s">\n%s\n'
+                '%s    </xsd:extension>\n%s  </xsd:simpleContent>\n%s</xsd:complexType>'
+                % (indent, t.name, indent, indent, base, inner, indent, indent, indent))
+
+
+class Op2(object):
+    """An operation with its OUTPUT message: style 'wrapped' (out_type = type of the
+    <name>Response wrapper element), 'bare' (out_parts = [(global element name, tref)]),
+    'rpc' (out_parts = [(part name, tref)], body_ns = namespace index of soap:body)."""
+
+    def __init__(self, name, style, out_type=None, out_parts=None, body_ns=0):
+        self.name = name
+        self.style = style
+        self.out_type = out_type
+        self.out_parts = out_parts or []
+        self.body_ns = body_ns
+
+
+def render_ops2(S, ops, R=None):
+    """WSDL text for operations with empty input messages and the given outputs
+    (one portType + binding + port per style: port_document / port_rpc)."""
+    R = R or FamRenderer(S)
+    p0 = R.prefixes[0]
+    globals_, msgs, pops = [], [], []
+    bops = {"document": [], "rpc": []}
+    for op in ops:
+        if op.style == "wrapped":
+            globals_.append('      <xsd:element name="%sResponse" type="%s"/>'
+                            % (op.name, R.tref(("n",) + tuple(op.out_type))))
+            outparts = '<wsdl:part name="parameters" element="%s:%sResponse"/>' % (p0, op.name)
+        elif op.style == "bare":
+            outparts = ""
+            for gname, tr in op.out_parts:
+                globals_.append('      <xsd:element name="%s" type="%s"/>' % (gname, R.tref(tr)))
+                outparts += '<wsdl:part name="p_%s" element="%s:%s"/>' % (gname, p0, gname)
+        else:
+            outparts = "".join('<wsdl:part name="%s" type="%s"/>' % (pn, R.tref(tr)) for pn, tr in op.out_parts)
+        msgs.append('  <wsdl:message name="%sIn"></wsdl:message>' % op.name)
+        msgs.append('  <wsdl:message name="%sOut">%s</wsdl:message>' % (op.name, outparts))
+        pop = ('    <wsdl:operation name="%s"><wsdl:input message="%s:%sIn"/>'
+               '<wsdl:output message="%s:%sOut"/></wsdl:operation>' % (op.name, p0, op.name, p0, op.name))
+        if op.style == "rpc":
+            body = '<soap:body use="literal" namespace="%s"/>' % S.namespaces[op.body_ns][0]
+            bops["rpc"].append((pop, '    <wsdl:operation name="%s"><soap:operation soapAction="act_%s" style="rpc"/>'
+                                '<wsdl:input>%s</wsdl:input><wsdl:output>%s</wsdl:output></wsdl:operation>'
+                                % (op.name, op.name, body, body)))
+        else:
+            bops["document"].append((pop, '    <wsdl:operation name="%s"><soap:operation soapAction="act_%s" '
+                                     'style="document"/><wsdl:input><soap:body use="literal"/></wsdl:input>'
+                                     '<wsdl:output><soap:body use="literal"/></wsdl:output></wsdl:operation>'
+                                     % (op.name, op.name)))
+    blocks = [R.schema_block(i, "\n".join(globals_) if i == 0 else "") for i in range(len(S.namespaces))]
+    pieces, ports = [], []
+    for style in ("document", "rpc"):
+        if not bops[style]:
+            continue
+        pieces.append('  <wsdl:portType name="pt_%s">\n%s\n  </wsdl:portType>'
+                      % (style, "\n".join(a for a, _ in bops[style])))
+        pieces.append('  <wsdl:binding name="b_%s" type="%s:pt_%s">\n'
+                      '    <soap:binding style="%s" transport="http://schemas.xmlsoap.org/soap/http"/>\n%s\n'
+                      '  </wsdl:binding>' % (style, p0, style, style, "\n".join(b for _, b in bops[style])))
+        ports.append('    <wsdl:port name="port_%s" binding="%s:b_%s">'
+                     '<soap:address location="http://unused.invalid/%s"/></wsdl:port>' % (style, p0, style, style))
+    return ("""<?xml version='1.0' encoding='UTF-8'?>
+<wsdl:definitions targetNamespace="%s" %s
+ xmlns:soap="http://schemas.xmlsoap.org/wsdl/soap/"
+ xmlns:wsdl="http://schemas.xmlsoap.org/wsdl/"
+ xmlns:xsd="http://www.w3.org/2001/XMLSchema">
+  <wsdl:types>
+%s
+  </wsdl:types>
+%s
+%s
+  <wsdl:service name="svc">
+%s
+  </wsdl:service>
+</wsdl:definitions>
+""" % (S.namespaces[0][0], R.nsdecls(), "\n".join(blocks), "\n".join(msgs), "\n".join(pieces),
+       "\n".join(ports))).encode("utf-8")
 
 
 def directed_interface():
@@ -872,14 +1078,59 @@ def run(ck):
 
     rng = ck.rng
     quick = ck.tier == "quick"
-    n_schemas = 60 if quick else 300
+    n_schemas = 45 if quick else 250
     n_values = 2 if quick else 3
     n_pres = 4 if quick else 6
+    n_values_other = 1 if quick else 2           # per bare / rpc operation
+    n_pres_other = 3 if quick else 5
 
     cases, meta = [], []
+
+    def one_case(S, wsdl, client, port, opname, style, wq, make, tag, profile=None, ops=(), extra_kinds=(),
+                 unwrap=True):
+        """make(plan) -> (elements inside the Body, expected value); writes the reply under a random
+        presentation, injects it, records the Coq case"""
+        I = F.new_interner()
+        P = F.CoqPrinter(S, I)
+        P.schema()                   # interns every schema name first
+        tables = case_tables(S, I, T)
+        plan = Plan(make.seedrng, S, T, P)
+        body_kids, expected = make(plan)
+        pname, opts = profile or pick_profile(rng)
+        wr = Writer(rng, **opts)
+        data = wr.envelope(body_kids, [u for u, _ in S.namespaces])
+        try:
+            raw = raw_parse(data)
+            info = U.expat_parse(data)
+        except Exception as e:  # noqa
+            raise RuntimeError("the writer produced an ill-formed document: %r\n%r" % (e, data))
+        kind, r = run_impl(client, opname, data, port)
+        impl = "(DOk %s)" % canon(T, r, dict(tables[1]), I) if kind == "ok" else kind
+        xk = [(I(n), T.BUILTIN_INDEX[b]) for n, b in extra_kinds]
+        c = build_case(S, I, P, T, style, (wq[0], I(wq[1]) if wq[1] else 0), raw_to_coq(raw), info_to_coq(info),
+                       expected, impl, tables, ops=ops, extra_kinds=xk)
+        cases.append(c.replace("NAMES", names_literal(I), 1))
+        meta.append(dict(wsdl=wsdl, op=opname, port=port, unwrap=unwrap, reply=data, profile=pname,
+                         result=repr(r)[:600], kind=kind, expected=expected,
+                         features=sorted(plan.features | wr.features)))
+        ck.seen(tag, nontrivial=True)
+        ck.count("style-" + style[0])
+        ck.count("profile-" + pname)
+        ck.count("impl-" + kind)
+        for f in plan.features | wr.features:
+            ck.count("with-" + f)
+
+    class Make(object):
+        def __init__(self, fn, seedrng):
+            self.fn = fn
+            self.seedrng = seedrng
+
+        def __call__(self, plan):
+            return self.fn(plan)
+
     # ---- the witnesses of coq/C02/Props.v replayed on the implementation
     S = directed_interface()
-    wsdl = F.render_ops(S, [F.Op("op0", "wrapped", in_type=(0, "W"), out_type=(0, "W"))])
+    wsdl = render_ops2(S, [Op2("op0", "wrapped", out_type=(0, "W"))])
     client = U.client_from_wsdl(wsdl)
     for label, body, expected in directed_documents(F.new_interner()):
         I = F.new_interner()
@@ -891,56 +1142,84 @@ def run(ck):
         raw, info = raw_parse(data), U.expat_parse(data)
         kind, r = run_impl(client, "op0", data)
         impl = "(DOk %s)" % canon(T, r, dict(tables[1]), I) if kind == "ok" else kind
-        c = build_case(S, I, P, T, 0, S.types[2], raw_to_coq(raw), info_to_coq(info), expected, impl, tables)
+        c = build_case(S, I, P, T, ("wrapped", S.types[2]), (1, I("op0Response")), raw_to_coq(raw),
+                       info_to_coq(info), expected, impl, tables, ops=[("op0", S.types[2])])
         cases.append(c.replace("NAMES", names_literal(I), 1))
-        meta.append(dict(wsdl=wsdl, op="op0", reply=data, profile="witness-" + label, result=repr(r)[:600],
-                         kind=kind, expected=expected, features=["witness"]))
+        meta.append(dict(wsdl=wsdl, op="op0", port="port_document", reply=data, profile="witness-" + label,
+                         result=repr(r)[:600], kind=kind, expected=expected, features=["witness"]))
         ck.seen(("witness", label), nontrivial=True)
         ck.count("witness-" + label)
+
+    def part_tref(S):
+        r = rng.random()
+        if r < 0.45:
+            return ("b", rng.choice(F.BUILTINS))
+        t = rng.choice(S.types)
+        return ("n", t.ns, t.name)
+
     for si in range(n_schemas):
         S = F.gen_schema(rng)
-        ops = [F.Op("op%d" % k, "wrapped", in_type=(t.ns, t.name), out_type=(t.ns, t.name))
-               for k, t in enumerate(S.types)]
-        wsdl = F.render_ops(S, ops)
+        complex_types = list(S.types)
+        add_simple_types(rng, S)
+        wops = [("op%d" % k, t) for k, t in enumerate(complex_types)]
+        ops = [Op2(n, "wrapped", out_type=(t.ns, t.name)) for n, t in wops]
+        # document/literal bare: one built-in part; several parts; one complex part (needs unwrap=False:
+        # with the default options suds treats a single complex element part as a wrapper)
+        bare1 = [("b1g0", ("b", rng.choice(F.BUILTINS)))]
+        bareN = [("bNg%d" % i, part_tref(S)) for i in range(rng.choice([2, 2, 3]))]
+        tc = rng.choice(complex_types)
+        bareC = [("bCg0", ("n", tc.ns, tc.name))]
+        rpc_ns = rng.randrange(len(S.namespaces))
+        rpc1 = [("r1p0", part_tref(S))]
+        rpcN = [("rNp%d" % i, part_tref(S)) for i in range(rng.choice([2, 2, 3]))]
+        ops += [Op2("bare1", "bare", out_parts=bare1), Op2("bareN", "bare", out_parts=bareN),
+                Op2("bareC", "bare", out_parts=bareC),
+                Op2("rpc1", "rpc", out_parts=rpc1, body_ns=rpc_ns), Op2("rpcN", "rpc", out_parts=rpcN, body_ns=rpc_ns)]
+        wsdl = render_ops2(S, ops)
         try:
             client = U.client_from_wsdl(wsdl)
+            client_nounwrap = U.client_from_wsdl(wsdl, unwrap=False) if si % 3 == 0 else None
         except Exception as e:  # noqa
             ck.failing_input("C02:wsdl-load", "generated WSDL could not be loaded: %r" % (e,),
                              {"wsdl": wsdl.decode("utf-8"), "error": repr(e)})
             continue
-        for k, t in enumerate(S.types):
+        for k, (opname, t) in enumerate(wops):
             for vi in range(n_values):
                 value = F.gen_object(rng, S, t, depth=0, typed=False)
                 for pi in range(n_pres):
-                    I = F.new_interner()
-                    P = F.CoqPrinter(S, I)
-                    P.schema()                   # interns every schema name first
-                    tables = case_tables(S, I, T)
                     # the same abstract value under different presentations: the plan (nil vs
-                    # absent, xsi:type, string contents) is re-derived from a per-value sub-seed
-                    plan = Plan(_Sub(value, vi), S, T, P)
-                    w, expected = plan.reply("op%dResponse" % k, t, value)
-                    pname, opts = pick_profile(rng)
-                    wr = Writer(rng, **opts)
-                    data = wr.envelope(w, [u for u, _ in S.namespaces])
-                    try:
-                        raw = raw_parse(data)
-                        info = U.expat_parse(data)
-                    except Exception as e:  # noqa
-                        raise RuntimeError("the writer produced an ill-formed document: %r\n%r" % (e, data))
-                    kind, r = run_impl(client, "op%d" % k, data)
-                    uri_ids = dict((u, i) for u, i in tables[1])
-                    impl = "(DOk %s)" % canon(T, r, uri_ids, I) if kind == "ok" else kind
-                    c = build_case(S, I, P, T, k, t, raw_to_coq(raw), info_to_coq(info), expected, impl, tables)
-                    c = c.replace("NAMES", names_literal(I), 1)
-                    cases.append(c)
-                    meta.append(dict(wsdl=wsdl, op="op%d" % k, reply=data, profile=pname, result=repr(r)[:600],
-                                     kind=kind, expected=expected, features=sorted(plan.features | wr.features)))
-                    ck.seen((si, k, vi, pi), nontrivial=True)
-                    ck.count("profile-" + pname)
-                    ck.count("impl-" + kind)
-                    for f in plan.features | wr.features:
-                        ck.count("with-" + f)
+                    # absent, xsi:type, string contents, lexical forms) is re-derived from a per-value sub-seed
+                    mk = Make(lambda plan, opname=opname, t=t, value=value: plan.reply(opname + "Response", t, value),
+                              _Sub(value, vi))
+                    one_case(S, wsdl, client, "port_document", opname, ("wrapped", t), (1, opname + "Response"),
+                             mk, (si, k, vi, pi), ops=wops)
+        # the other binding styles
+        others = [("bare1", "bare", bare1, client, 0), ("bareN", "bare", bareN, client, 0),
+                  ("rpc1", "rpc", rpc1, client, rpc_ns), ("rpcN", "rpc", rpcN, client, rpc_ns)]
+        if client_nounwrap is not None:
+            others.append(("bareC", "bare", bareC, client_nounwrap, 0))
+        for opname, style, parts, cl, bns in others:
+            elems = [F.Elem(n, 0, style == "bare", tr, opt=False, multi=False, nillable=False) for n, tr in parts]
+            xk = [(n, tr[1]) for n, tr in parts if tr[0] == "b"]
+            for vi in range(n_values_other):
+                values = [F.gen_value(rng, S, e, depth=1) for e in elems]
+                fp = "|".join(_fingerprint(v) for v in values)
+                for pi in range(n_pres_other):
+                    if style == "bare":
+                        fn = lambda plan, elems=elems, values=values: plan.parts(elems, values)      # noqa: E731
+                        wq = (0, None)
+                    else:
+                        def fn(plan, elems=elems, values=values, opname=opname, bns=bns):
+                            nodes, exp = plan.parts(elems, values)
+                            return [XE(S.namespaces[bns][0], opname + "Response", kids=nodes)], exp
+                        wq = (bns + 1, opname + "Response")
+                    mk = Make(fn, _SubStr(fp, vi))
+                    # rpc part accessors are declared optional (PartElement.optional), never repeating
+                    delems = elems if style == "bare" else [
+                        F.Elem(e.name, 0, False, e.tref, opt=True, multi=False, nillable=False) for e in elems]
+                    one_case(S, wsdl, cl, "port_rpc" if style == "rpc" else "port_document", opname,
+                             (style, delems), wq, mk, (si, opname, vi, pi), ops=wops, extra_kinds=xk,
+                             unwrap=cl is client)
 
     ck.sample({"operation": meta[0]["op"], "reply": meta[0]["reply"].decode("utf-8")[:900],
                "returned": meta[0]["result"][:400]})
@@ -966,6 +1245,12 @@ class _Sub(object):
 
     def __getattr__(self, name):
         return getattr(self.r, name)
+
+
+class _SubStr(_Sub):
+    def __init__(self, text, salt):
+        import random
+        self.r = random.Random("%s/%d" % (text, salt))
 
 
 def _fingerprint(v):
@@ -1011,7 +1296,8 @@ def judge(ck, cases, meta, res, proof_ok):
     for i in sorted(spec_bad):
         m = meta[i]
         fl = [f for f in FLAGS if i in flagged[f]]
-        payload = {"wsdl": m["wsdl"].decode("utf-8"), "operation": m["op"], "reply": m["reply"].decode("utf-8"),
+        payload = {"wsdl": m["wsdl"].decode("utf-8"), "operation": m["op"], "port": m.get("port", "port_document"),
+                   "unwrap": m.get("unwrap", True), "reply": m["reply"].decode("utf-8"),
                    "returned": m["result"], "expected": m["expected"], "classes": fl, "case": cases[i][:20000]}
         what = ("%s(__inject reply) returned %s but the document encodes %s"
                 % (m["op"], m["result"][:300], m["expected"][:300]))
@@ -1064,8 +1350,9 @@ def replay(ck, payload):
     from . import sudsutil as U
     print(payload.get("what"))
     if "wsdl" in payload and "reply" in payload:
-        client = U.client_from_wsdl(payload["wsdl"].encode("utf-8"))
-        kind, r = run_impl(client, payload["operation"], payload["reply"].encode("utf-8"))
+        client = U.client_from_wsdl(payload["wsdl"].encode("utf-8"), unwrap=payload.get("unwrap", True))
+        kind, r = run_impl(client, payload["operation"], payload["reply"].encode("utf-8"),
+                           payload.get("port", "port_document"))
         print("reply:", payload["reply"])
         print("now returns:", kind, repr(r)[:1000])
         print("document encodes:", payload.get("expected"))
